@@ -27,7 +27,7 @@ using namespace c19;
 
 namespace {
 
-// MC_ITYPE: index type; MC_SLICE: 0 = rank 0..2, 1/2 = the two halves of rank 3, 3/4 = the two halves of rank 4
+// MC_ITYPE: index type; MC_SLICE: 0 = rank 0..2, 1/2 = the two halves of rank 3, 3/4 = the two halves of rank 4, 5 = rank 5-6 (12 patterns)
 #if MC_ITYPE == 1
 using PartIndex = int;
 #elif MC_ITYPE == 2
@@ -366,6 +366,23 @@ Indices make_indices(std::vector<ll> const& e)
     return ix;
 }
 
+/// next nesting order of the dimensions: every permutation up to rank 4; at rank 5-6 only the
+/// rotations of the identity and of the reversed order (2*R orders)
+bool next_nesting_order(std::vector<std::size_t>& perm)
+{
+    std::size_t const R = perm.size();
+    while (std::next_permutation(perm.begin(), perm.end())) {
+        if (R < 5) { return true; }
+        bool rot = true, rev = true;
+        for (std::size_t k = 0; k + 1 < R; ++k) {
+            rot = rot && (perm[k + 1] == (perm[k] + 1) % R);
+            rev = rev && (perm[k] == (perm[k + 1] + 1) % R);
+        }
+        if (rot || rev) { return true; }
+    }
+    return false;
+}
+
 std::vector<std::vector<ll>> stride_sets(std::vector<ll> const& e, bool thorough)
 {
     std::vector<std::vector<ll>> out;
@@ -383,7 +400,7 @@ std::vector<std::vector<ll>> stride_sets(std::vector<ll> const& e, bool thorough
             }
             if (std::find(out.begin(), out.end(), s) == out.end()) { out.push_back(s); }
         }
-    } while (std::next_permutation(perm.begin(), perm.end()));
+    } while (next_nesting_order(perm));
     return out;
 }
 
@@ -421,7 +438,11 @@ void run_md_case(Ctx& c, TypeInfo const& ti, MdFns const& f, Limits lim, ll maxD
         std::string const zc = R == 0 ? "rank0" : (has_zero ? "zero_extent" : "general");
         c.ocls               = zc;
         ll const prod        = product(e);
-        if (static_cast<ull>(prod) > lim.index_max || static_cast<ull>(prod) > lim.other_max) {
+        // with a zero extent the size is 0 but stride(r) is still the product of the other extents: it must be representable as well
+        ull largest = static_cast<ull>(prod);
+        for (auto v : strides_left(e)) { largest = std::max(largest, static_cast<ull>(v)); }
+        for (auto v : strides_right(e)) { largest = std::max(largest, static_cast<ull>(v)); }
+        if (largest > lim.index_max || largest > lim.other_max) {
             ++c.skipped;
             continue;
         }
@@ -484,6 +505,21 @@ void job_md(mc::Reporter& r, ll maxDyn)
         }
         run_md_case(c, tinfo<E>, md_fns<E>, lim, maxDyn);
     });
+    c.flush();
+}
+
+template <typename I, typename List>
+void job_md_list(mc::Reporter& r, ll maxDyn)
+{
+    Ctx c(r);
+    Limits const lim{static_cast<ull>(std::numeric_limits<I>::max()), static_cast<ull>(std::numeric_limits<other_t<I>>::max())};
+    for_types([&]<typename E>() {
+        if (r.deadline_passed()) {
+            if (r.exhaustive) { r.not_exhaustive("deadline"); }
+            return;
+        }
+        run_md_case(c, tinfo<E>, md_fns<E>, lim, maxDyn);
+    }, List{});
     c.flush();
 }
 
@@ -569,6 +605,10 @@ int main(int argc, char** argv)
     m.job(cat("mdspan/", in, "/rank4a"), th, [](mc::Reporter& r) { job_md<I, A3, 4, 0, 41>(r, 3); });
 #elif MC_SLICE == 4
     m.job(cat("mdspan/", in, "/rank4b"), th, [](mc::Reporter& r) { job_md<I, A3, 4, 41, 40>(r, 3); });
+#elif MC_SLICE == 5
+    // rank 5 and 6: six patterns each (c19_common.hpp), dynamic extents 0..3
+    m.job(cat("mdspan/", in, "/rank5"), th, [](mc::Reporter& r) { job_md_list<I, rank5_types<I>>(r, 3); });
+    m.job(cat("mdspan/", in, "/rank6"), th, [](mc::Reporter& r) { job_md_list<I, rank6_types<I>>(r, 3); });
 #endif
     return m.run();
 }
